@@ -279,7 +279,10 @@ class ReadyRule(S.SeqRule):
         return (False, None)
 
     def inline(self, fn, nid, callee):
-        return False
+        # a helper of the same file that holds (part of) the completion: stores the state or applies the options
+        return (callee.static and callee.file == self.root.file and callee is not self.root
+                and (any(callee.fields_of(lhs)[-1:] == ("state",) for b, i, e, lhs, rhs, op in callee.stores())
+                     or any(True for _ in callee.calls("tcp_opts_effectuate"))))
 
     def on_branch(self, fn, st, blk, cond, label):
         if label not in ("T", "F"):
@@ -834,3 +837,10 @@ def run(ctx):
         r8.ok("btcp init copies ipv6.scope from the parent socket", "store")
     else:
         r8.violation("%s:scope" % bi.name, "the parent's scope is not inherited", loc=bi.file)
+
+    # ------------------------------------------------------------------ R9
+    r9 = ctx.rule("C11.R9", "accepted TLS sockets inherit every TLS policy attribute of the server socket, whatever the other attributes hold")
+    from . import C09 as c09
+    btl = [t for t in tables if t.proto == "btls"][0]
+    c09.check_inheritance(P, btl, P.fn("set_verify"), r9)
+    r9.floor(9, "inherited TLS policy fields")
